@@ -799,10 +799,6 @@ func (vfs *OrefaFS) Rename(oldname, newname string) error {
 	oAbsPath, _ := vfs.Abs(oldname)
 	nAbsPath, _ := vfs.Abs(newname)
 
-	if oAbsPath == nAbsPath {
-		return nil
-	}
-
 	oDirName, oFileName := avfs.SplitAbs(vfs, oAbsPath)
 	nDirName, nFileName := avfs.SplitAbs(vfs, nAbsPath)
 
@@ -817,6 +813,10 @@ func (vfs *OrefaFS) Rename(oldname, newname string) error {
 
 	if !oChildOk || !oParentOk || !nParentOk {
 		return &os.LinkError{Op: op, Old: oldname, New: newname, Err: vfs.err.NoSuchFile}
+	}
+
+	if oAbsPath == nAbsPath {
+		return nil
 	}
 
 	if !nParent.mode.IsDir() {
